@@ -47,4 +47,30 @@ CHECKS = {
         "quick": [T("TestC13", 8, 1200, steps=50)],
         "thorough": [T("TestC13", 16, 30000, steps=80, timeout=3000)],
     },
+    "C04": {
+        "level": "exploration",
+        "rule": ("rapid state machine on a real node (std world: 3 appchains, 5 ordered services, audit on/off, 1-5 service "
+                 "pairs incl. blacklisted and missing destinations): request(T), receipt(success|failure|rollback) for the "
+                 "next index, for transactions in a final state and with bad indices, transfers, seal, empty blocks, restart. "
+                 "Oracle: protocol FSM transcribed from the statement folded over the accepted events plus expiry at H+T, "
+                 "compared with GetStatus of every transaction after every block; accepted receipt without an edge, rejected "
+                 "receipt that had an edge and the next index, and record bytes changing without event are violations. "
+                 "Non-trivial = a transaction reached a final state and received a further event, or a receipt landed in the "
+                 "expiry block; distinct = hash of the operation history."),
+        "assumptions": ["inter-BitXHub notices (signed BEGIN_FAILURE/BEGIN_ROLLBACK from a destination hub) are exercised by the C03 check, not here",
+                        "all proofs are valid here (HappyRule); proof handling is C03"],
+        "quick": [T("TestC04", 8, 150, steps=30)],
+        "thorough": [T("TestC04", 16, 4000, steps=45, timeout=3000)],
+    },
+    "C06": {
+        "level": "exploration",
+        "rule": ("same generator as C04 with T in {0,1,2,3,5,2^31,2^63-1,-1,-5}; oracle per block: an id is listed in "
+                 "TimeoutCounter[source chain] iff this is block H+T and no receipt was accepted in a block <= H+T, listed at "
+                 "most once overall, status BEGIN_ROLLBACK afterwards, header TimeoutRoot equals the recomputed root of the "
+                 "listed ids, GetStatus of transactions with an accepted receipt never altered. Non-trivial = receipt within "
+                 "one block of H+T, >=2 ids sharing an expiry height, or a restart inside (H,H+T); distinct = hash of history."),
+        "assumptions": ["one-to-many groups and their timeouts are decided by the C05 check"],
+        "quick": [T("TestC06", 8, 150, steps=30)],
+        "thorough": [T("TestC06", 16, 4000, steps=45, timeout=3000)],
+    },
 }
